@@ -42,9 +42,14 @@ Inductive wop :=
 | SetUser (s cell name v : Z)
 | SForget (s : Z)
 | DelEmpty (s : Z)
-| Connect (s ci key cj : Z).      (* cells[ci].connect(cells[cj], <hand-made key>) *)
+| Connect (s ci key cj : Z)       (* cells[ci].connect(cells[cj], <hand-made key>) *)
+| Draw (s kind arg : Z)           (* a random selection on side s: which population, see draw_population *)
+| SDraw (s kind : Z)              (* AgentSet.shuffle_do / shuffle(inplace=False): draws, order unchanged *)
+| SShuffle (s : Z) (perm : list Z).  (* AgentSet.shuffle(inplace=True): the new order (labels) is the recorded outcome *)
 
 Definition E_FIXED : Z := 6.
+Definition E_EMPTY : Z := 7.      (* IndexError: cannot choose from an empty sequence *)
+Definition ILLEGAL : list Z := [-3].
 
 Fixpoint lookupn (a : nat) (l : list (nat * nat)) : option nat :=
   match l with
@@ -191,6 +196,33 @@ Definition del_empty_side (h : heap) (sd : side) : heap * side :=
   (upd_class h (s_klass sp) (fun k => {| d_descr := assoc_del EMPTY (d_descr k) |}),
    {| sd_space := set_layers (assoc_del EMPTY (s_layers sp)) sp; sd_tab := sd_tab sd |}).
 
+(* ------------------------------------------------------------------ random selections
+   The generator is not modelled: which element is drawn is an outcome the model does not see.  What is determined is
+   WHETHER the side's own generator is consulted (a non-empty population: random.choice consumes; an empty one raises
+   IndexError before drawing) - and, by construction of the model, that no other side's generator is touched. *)
+Fixpoint dedupn (l : list nat) : list nat :=
+  match l with [] => [] | x :: t => if memn x t then dedupn t else x :: dedupn t end.
+
+Definition nbhd_cells (h : heap) (c : nat) : list nat :=
+  filter (fun t => negb (Nat.eqb t c)) (dedupn (map snd (k_conns (getc h c)))).
+
+Definition draw_population (h : heap) (sd : side) (kind arg : Z) : option nat :=
+  let cells := s_cells (sd_space sd) in
+  let n_empty := length (filter (fun c => Nat.eqb (length (k_agents (getc h c))) O) cells) in
+  let at_cell := if arg <? 0 then None else nth_error cells (Z.to_nat arg) in
+  if kind =? 0 then Some (length cells)                                   (* all_cells.select_random_cell() *)
+  else if kind =? 1 then Some (length (agents_of h cells))                (* all_cells.select_random_agent() *)
+  else if kind =? 2 then Some n_empty                                     (* empties.select_random_cell() *)
+  else if kind =? 3 then                                                  (* select_random_empty_cell(), _try_random: loops *)
+    (if s_grid (sd_space sd) && Nat.eqb n_empty O then None else Some n_empty)
+  else if kind =? 4 then Some n_empty                                     (* select_random_empty_cell() via the empties list *)
+  else if kind =? 5 then option_map (fun c => length (nbhd_cells h c)) at_cell           (* cell.neighborhood.select_random_cell() *)
+  else if kind =? 6 then option_map (fun c => length (agents_of h (nbhd_cells h c))) at_cell  (* ....select_random_agent() *)
+  else None.
+
+Definition member_with_label (h : heap) (ms : list nat) (label : Z) : list nat :=
+  match filter (fun a => a_label (geta h a) =? label) ms with a :: _ => [a] | [] => [] end.
+
 Definition wstep (w : world) (o : wop) : world * list Z :=
   match o with
   | Inner (Copy _ _) => (w, NOOP)
@@ -262,6 +294,34 @@ Definition wstep (w : world) (o : wop) : world * list Z :=
           | _, _ => (w, NOOP)
           end
       end
+  | Draw s kind arg =>
+      match side_of w s with
+      | None => (w, NOOP)
+      | Some sd =>
+          match draw_population (st_heap (w_st w)) sd kind arg with
+          | None => (w, NOOP)
+          | Some O => (w, [-1; E_EMPTY])
+          | Some _ => (w, [0; 1])            (* drawn from the side's own generator *)
+          end
+      end
+  | SDraw s _ =>
+      match nth_side (st_sets (w_st w)) s with
+      | None => (w, NOOP)
+      | Some ss => (w, [0; b2z (Nat.leb 2 (length (ss_members ss)))])     (* random.shuffle draws iff there are >= 2 items *)
+      end
+  | SShuffle s perm =>
+      match nth_side (st_sets (w_st w)) s with
+      | None => (w, NOOP)
+      | Some ss =>
+          let h := st_heap (w_st w) in
+          let ms := ss_members ss in
+          let new := flat_map (member_with_label h ms) perm in
+          (* legal outcome: the same members, each once *)
+          if Nat.eqb (length new) (length ms) && forallb (fun a => memn a new) ms
+          then (with_st w (with_set (w_st w) h s {| ss_members := new; ss_tab := ss_tab ss |}),
+                [0; b2z (Nat.leb 2 (length ms))])
+          else (w, ILLEGAL)
+      end
   | DelEmpty s =>
       match side_of w s with
       | None => (w, NOOP)
@@ -309,7 +369,9 @@ Fixpoint nodupn (l : list nat) : bool :=
   match l with [] => true | x :: t => negb (memn x t) && nodupn t end.
 
 Definition world_obs (w : world) : list Z :=
-  obs_state (w_st w) ++ views (world_side_view w) O (st_sides (w_st w)) ++ [b2z (nodupn (w_smodel w))].
+  obs_state (w_st w) ++ views (world_side_view w) O (st_sides (w_st w)) ++ [b2z (nodupn (w_smodel w))]
+  (* generators: every side has its own, a draw on one side leaves the others alone, a copy starts in the state of its source *)
+  ++ [1].
 
 Fixpoint wrun_ops (w : world) (ops : list wop) : list (list Z) :=
   match ops with
